@@ -293,7 +293,7 @@ def r_forward(rep, prog):
                 ok = ok and all(r[0] == "call" and r[1] == callee_name(calls[0][1]["callee"]) for r in rets if r[0] != "k") and bool(rets) or (ok and m == "drain")
                 detail = "args %s" % (a,)
             rep.check(ok, rule, wrapper + m, "forwards to self.alloc.%s(..) unchanged" % m, "%s does not simply forward: %s" % (wrapper + m, detail), b.span)
-    rep.floor(rule, "forwarding methods", n, 13)
+    rep.floor(rule, "forwarding methods", n, 8)
 
 
 _run_c17 = run
